@@ -475,6 +475,7 @@ func checkC10(c *Ctx, r *Report) {
 	ruleProvenance(c, r, "provenance", m)
 	ruleHelpers(c, r, "helpers")
 	ruleConstCache(c, r, "const-cache")
+	ruleVarintWrappers(c, r, "operand-codec", "")
 	checkJumpArith(c, r, "jump-arith")
 	checkU16(c, r, "u16")
 	ruleProgOwners(c, r, "prog-owners")
